@@ -15,6 +15,12 @@ VERIF = os.path.dirname(os.path.dirname(os.path.abspath(__file__)))
 REPO = os.environ.get("VERIF_REPO", "/repo")
 SPEC = os.path.join(VERIF, "spec")
 HARNESS = os.path.join(VERIF, "harness")
+# Mutation experiments only (never used by the registered commands): a scratch copy of the
+# repository plus scratch output directories, so that experiments can run next to development.
+SCRATCH = os.environ.get("VERIF_SCRATCH")
+EVIDENCE_DIR = os.environ.get("VERIF_EVIDENCE_DIR", os.path.join(VERIF, "evidence"))
+REPLAY_DIR = os.environ.get("VERIF_REPLAY_DIR", os.path.join(VERIF, "replays"))
+WORK_ROOT = os.path.join(SCRATCH, "work") if SCRATCH else os.path.join(VERIF, "work")
 NCPU = os.cpu_count() or 4
 
 
@@ -45,7 +51,7 @@ def sh(cmd, env=None, cwd=None, timeout=None, check=True):
 
 class Work:
     def __init__(self, name):
-        self.dir = os.path.join(VERIF, "work", "%s-%d" % (name, os.getpid()))
+        self.dir = os.path.join(WORK_ROOT, "%s-%d" % (name, os.getpid()))
         shutil.rmtree(self.dir, ignore_errors=True)
         os.makedirs(self.dir)
         self.n = 0
@@ -73,10 +79,19 @@ def build_harness(config="std"):
         return _built[config]
     feats = {"std": [], "nostd": ["--no-default-features"],
              "serde": ["--features", "with_serde"]}[config]
-    tdir = os.path.join(HARNESS, "target", config)
+    hdir = HARNESS
+    if REPO != "/repo":
+        if not SCRATCH:
+            raise ToolError("VERIF_REPO needs VERIF_SCRATCH")
+        hdir = os.path.join(SCRATCH, "harness")
+        if not os.path.exists(hdir):
+            shutil.copytree(HARNESS, hdir, ignore=shutil.ignore_patterns("target"))
+            ct = open(os.path.join(hdir, "Cargo.toml")).read().replace('path = "/repo"', 'path = "%s"' % REPO)
+            open(os.path.join(hdir, "Cargo.toml"), "w").write(ct)
+    tdir = os.path.join(hdir, "target", config)
     cmd = ["cargo", "build", "--offline", "--quiet", "--target-dir", tdir] + feats
     env = {"CARGO_NET_OFFLINE": "true"}
-    rc, out, dt = sh(cmd, cwd=HARNESS, env=env, timeout=900, check=False)
+    rc, out, dt = sh(cmd, cwd=hdir, env=env, timeout=900, check=False)
     if rc != 0:
         raise ToolError("harness build failed (%s):\n%s" % (config, out[-4000:]))
     b = os.path.join(tdir, "debug", "hm-harness")
@@ -218,10 +233,10 @@ def load_known():
 
 
 def write_evidence(prop, tier, seed, level, coverage, wall, violations, assumptions):
-    os.makedirs(os.path.join(VERIF, "evidence"), exist_ok=True)
+    os.makedirs(EVIDENCE_DIR, exist_ok=True)
     ev = {"property_id": prop, "tier": tier, "seed": seed, "level": level, "coverage": coverage,
           "assumptions": assumptions, "wall_s": round(wall, 2), "violations": violations}
-    with open(os.path.join(VERIF, "evidence", prop + ".json"), "w") as f:
+    with open(os.path.join(EVIDENCE_DIR, prop + ".json"), "w") as f:
         json.dump(ev, f, indent=1, sort_keys=True)
         f.write("\n")
 
